@@ -1228,6 +1228,66 @@ pub fn run() -> SimResult {
                             if l != a.len() {
                                 return Err(mismatch(&what, "Array::len", format!("{} after the operation but the model has {}", l, a.len())));
                             }
+                            // read side of the typed handle: iteration by reference, size_hint, capacity,
+                            // Serialize, equality with slices / Vec / Value in both directions
+                            let model_arr = J::Arr(a.clone());
+                            libcall("Array handle reads", || -> Result<(), Violation> {
+                                let mut n = 0;
+                                for (x, mx) in (&h).into_iter().zip(a.iter()) {
+                                    oracle::check_scalars(x, mx, &what)?;
+                                    n += 1;
+                                }
+                                let hint = h.clone().into_iter().size_hint();
+                                if n != a.len() || hint != (a.len(), Some(a.len())) {
+                                    return Err(mismatch(&what, "Array iteration", format!("visited {} size_hint {:?}, model has {}", n, hint, a.len())));
+                                }
+                                if h.capacity() < a.len() {
+                                    return Err(mismatch(&what, "Array::capacity", format!("{} < len {}", h.capacity(), a.len())));
+                                }
+                                let text = sonic_rs::to_string(&h).map_err(|e| mismatch(&what, "to_string(Array)", e.to_string()))?;
+                                oracle::check_serialized(&text, &model_arr, &what)?;
+                                let as_value = Value::from(h.clone());
+                                if !(as_value == h) || !(h == as_value) || !(&h == as_value) {
+                                    return Err(mismatch(&what, "PartialEq<Array>", "an array handle is not equal to the value made from its clone".into()));
+                                }
+                                // all-u64 arrays compare with slices / Vec / arrays of u64
+                                let nums: Option<Vec<u64>> = a.iter().map(|x| if let J::Num(l) = x { oracle::expected_u64(l) } else { None }).collect();
+                                if let Some(nums) = nums {
+                                    let mut longer = nums.clone();
+                                    longer.push(7);
+                                    if !(h == nums) || !(h == nums[..]) || !(as_value == nums) || !(nums == as_value) || h == longer || as_value == longer[..] {
+                                        return Err(mismatch(&what, "PartialEq<[u64]>", format!("comparison with {:?} is wrong", nums)));
+                                    }
+                                    if nums.len() == 2 {
+                                        let arr2 = [nums[0], nums[1]];
+                                        if !(h == arr2) || !(as_value == &arr2) {
+                                            return Err(mismatch(&what, "PartialEq<[u64; 2]>", "comparison with a fixed array is wrong".into()));
+                                        }
+                                    }
+                                }
+                                Ok(())
+                            })??;
+                            // as_mut_slice / iteration by mutable reference: nulls become false
+                            libcall("Array as_mut_slice / &mut iteration", || {
+                                for x in h.as_mut_slice().iter_mut() {
+                                    if x.is_null() {
+                                        *x = Value::from(false);
+                                    }
+                                }
+                                for x in &mut h {
+                                    if x.is_true() {
+                                        *x = Value::from(1u64);
+                                    }
+                                }
+                            })?;
+                            for x in a.iter_mut() {
+                                if matches!(x, J::Null) {
+                                    *x = J::Bool(false);
+                                }
+                                if matches!(x, J::Bool(true)) {
+                                    *x = J::Num("1".into());
+                                }
+                            }
                             libcall("into_value", || h.into_value())?
                         }
                         J::Obj(o) => {
@@ -1288,10 +1348,58 @@ pub fn run() -> SimResult {
                             if l != o.len() {
                                 return Err(mismatch(&what, "Object::len", format!("{} after the operation but the model has {}", l, o.len())));
                             }
+                            let model_obj = J::Obj(o.clone());
+                            libcall("Object handle reads", || -> Result<(), Violation> {
+                                let it = h.iter();
+                                if it.len() != o.len() {
+                                    return Err(mismatch(&what, "Object::iter().len", format!("{} but the model has {}", it.len(), o.len())));
+                                }
+                                let mut n = 0;
+                                for (k, x) in &h {
+                                    let mx = model_obj.get_key(k).ok_or_else(|| mismatch(&what, "Object iteration", format!("unexpected key {:?}", k)))?;
+                                    oracle::check_scalars(x, mx, &what)?;
+                                    n += 1;
+                                }
+                                if n != o.len() {
+                                    return Err(mismatch(&what, "Object iteration", format!("visited {} of {}", n, o.len())));
+                                }
+                                if h.capacity() < o.len() {
+                                    return Err(mismatch(&what, "Object::capacity", format!("{} < len {}", h.capacity(), o.len())));
+                                }
+                                let text = sonic_rs::to_string(&h).map_err(|e| mismatch(&what, "to_string(Object)", e.to_string()))?;
+                                oracle::check_serialized(&text, &model_obj, &what)?;
+                                let as_value = Value::from(h.clone());
+                                if !(as_value == h) || !(h == as_value) || !(&h == as_value) || !(h == h.clone()) {
+                                    return Err(mismatch(&what, "PartialEq<Object>", "an object handle is not equal to the value made from its clone".into()));
+                                }
+                                Ok(())
+                            })??;
+                            libcall("Object &mut iteration", || {
+                                for (_k, x) in &mut h {
+                                    if x.is_null() {
+                                        *x = Value::from("was null");
+                                    }
+                                }
+                            })?;
+                            for (_, x) in o.iter_mut() {
+                                if matches!(x, J::Null) {
+                                    *x = J::Str("was null".into());
+                                }
+                            }
                             libcall("into_value", || h.into_value())?
                         }
-                        _ => {
+                        other => {
+                            // a scalar: typed parsing of its text must be rejected, defaults are empty containers
                             libcall("drop", move || drop(nv))?;
+                            let text = gen::render(other, &Style::plain());
+                            let (ea, eo) = libcall("from_str::<Array/Object>(scalar)", || (sonic_rs::from_str::<Array>(&text).is_err(), sonic_rs::from_str::<Object>(&text).is_err()))?;
+                            if !ea || !eo {
+                                return Err(mismatch(&what, "from_str::<Array/Object>", format!("accepted the scalar {}", oracle::truncate(&text))));
+                            }
+                            let (da, dob) = libcall("defaults", || (Array::default().len(), Object::default().len()))?;
+                            if da != 0 || dob != 0 {
+                                return Err(mismatch(&what, "Default", "Array::default / Object::default are not empty".into()));
+                            }
                             v
                         }
                     };
